@@ -365,6 +365,7 @@ DTC_TYPE0 = {"ReportNumberOfDTCByStatusMaskRequest": (0x01, "count"), "ReportDTC
              "ReportNumberOfMirrorMemoryDTCByStatusMaskRequest": (0x11, "count"),
              "ReportNumberOfEmissionsRelatedOBDDTCByStatusMaskRequest": (0x12, "count"),
              "ReportEmissionsRelatedOBDDTCByStatusMaskRequest": (0x13, "list")}
+DTC_SINGLE_SF = {0x0B, 0x0C, 0x0D, 0x0E}
 DTC_TYPE6 = {"ReportSupportedDTCRequest": 0x0A, "ReportFirstTestFailedDTCRequest": 0x0B,
              "ReportFirstConfirmedDTCRequest": 0x0C, "ReportMostRecentFirstTestFailedDTCRequest": 0x0D,
              "ReportMostRecentConfirmedDTCRequest": 0x0E, "ReportDTCWithPermanentStatusRequest": 0x15}
@@ -375,6 +376,8 @@ def _dtc_reply(sf: int, kind: str):
         if kind == "count":
             return bytes([0x59, sf, 0xFF, 0x01]) + (tail + b"\0\0")[:2]
         recs = tail[: len(tail) // 4 * 4]
+        if sf in DTC_SINGLE_SF:
+            recs = recs[:4]  # "first / most recent" reports carry at most one record
         # distinct DTCs only (duplicates are C02's subject)
         seen = set()
         out = b""
@@ -499,6 +502,7 @@ KNOWN_NRC = {0x10, 0x11, 0x12, 0x13, 0x14, 0x21, 0x22, 0x24, 0x25, 0x26, 0x31, 0
 TYPED_SIDS = {0x10, 0x11, 0x27, 0x28, 0x3E, 0x85, 0x22, 0x23, 0x2C, 0x2E, 0x3D, 0x14, 0x19, 0x2F, 0x31, 0x34, 0x35, 0x36, 0x37}
 DTC_COUNT_SF = {0x01, 0x11, 0x12}
 DTC_LIST_SF = {0x02, 0x0F, 0x13, 0x0A, 0x0B, 0x0C, 0x0D, 0x0E, 0x15}
+DTC_SINGLE_SF = {0x0B, 0x0C, 0x0D, 0x0E}
 
 
 def ref_decode_response(b: bytes) -> tuple[str, dict[str, Any] | None]:
@@ -572,7 +576,7 @@ def ref_decode_response(b: bytes) -> tuple[str, dict[str, Any] | None]:
             return "typed", {"dtc_status_availability_mask": b[2], "dtc_format_identifier": b[3],
                              "dtc_count": int.from_bytes(b[4:6], "big")}
         if sf in DTC_LIST_SF:
-            if n < 3 or (n - 3) % 4 != 0:
+            if n < 3 or (n - 3) % 4 != 0 or (sf in DTC_SINGLE_SF and n > 7):
                 return "malformed", None
             recs = [(int.from_bytes(b[i:i + 3], "big"), b[i + 3]) for i in range(3, n, 4)]
             return "typed", {"dtc_status_availability_mask": b[2], "dtc_and_status_record": recs}
@@ -648,9 +652,10 @@ def valid_response(draw) -> bytes:
         if kind == "count":
             return bytes([r, draw(st.sampled_from(sorted(DTC_COUNT_SF))), draw(byte), draw(st.integers(0, 3))]) + be(draw(did), 2)
         if kind == "list":
-            n = draw(st.integers(0, 12))
+            sf = draw(st.sampled_from(sorted(DTC_LIST_SF)))
+            n = draw(st.integers(0, 1 if sf in DTC_SINGLE_SF else 12))
             recs = b"".join(be(draw(bint(0, 0xFFFFFF)), 3) + bytes([draw(byte)]) for _ in range(n))
-            return bytes([r, draw(st.sampled_from(sorted(DTC_LIST_SF))), draw(byte)]) + recs
+            return bytes([r, sf, draw(byte)]) + recs
         return bytes([r, 6]) + be(draw(bint(0, 0xFFFFFF)), 3) + bytes([draw(byte)]) + \
             (bytes([draw(bint(0, 0xFD))]) + tail if draw(st.integers(0, 4)) else b"")
     if sid == 0x31:
